@@ -36,6 +36,17 @@ Definition run_case (st : dstate) (x : sexp) : dstate * outcome :=
       | Some hc => (st, run_hist_extract (ds_prop st) (ds_schemas st) hc live mobs mgr ext o)
       | None => (st, out_bad "unknown conf")
       end
+  | SList [SAtom "c20.sim"; SAtom cid; lm; mm; ls; ms] =>
+      match with_conf st cid with
+      | Some hc => (st, run_c20_sim (ds_schemas st) hc lm mm ls ms)
+      | None => (st, out_bad "unknown conf")
+      end
+  | SList [SAtom "c20.reconcile"; SAtom sid; tr; set; res; again] =>
+      match ds_schema st sid with
+      | Some s => (st, run_c20_reconcile s tr set res again)
+      | None => (st, out_bad "unknown schema")
+      end
+  | SList [SAtom "c20.diverged"; SAtom why] => (st, mkOut ["prop C20 " ++ why] 1 1 [])
   | SList [SAtom "c19.include"; pats; set; res] => (st, run_c19_include pats set res)
   | SList [SAtom "c19.exclude"; ex; set; res] => (st, run_c19_exclude ex set res)
   | SList [SAtom "c19.same"; a; b; obs] => (st, run_c19_same a b obs)
